@@ -192,6 +192,95 @@ func bases(thorough bool) []*Prog {
 			[]*Def{mkdef("p", ls[tr[0]], ""), mkdef("q", ls[tr[1]], ""), mkdef("r", ls[tr[2]], "")},
 			[]Stmt{Print{call("p", lit(1))}, Print{call("q", lit(2))}, Print{call("r", lit(3))}})
 	}
+	// G: generator methods (def *g) consumed by for-in, async methods consumed by await / await_sync, classes with an
+	// init and instance methods, a module method: every method-like context whose checker state a closure literal,
+	// an inserted local, a rename or parentheses could disturb
+	a := v("a")
+	gen := func(name string, body ...Stmt) *Def {
+		return &Def{Name: name, Params: []Param{pInt("a")}, Ret: "Int", Body: body, Kind: "gen"}
+	}
+	asy := func(name string, body ...Stmt) *Def {
+		return &Def{Name: name, Params: []Param{pInt("a")}, Ret: "Int", Body: body, Kind: "async"}
+	}
+	forPrint := func(g string, arg int) Stmt {
+		return ForIn{"e", call(g, lit(arg)), []Stmt{Print{v("e")}}}
+	}
+	gens := []*Def{
+		gen("g", Yield{a}, Let{"b", "", bin("+", a, lit(1))}, Yield{v("b")}, ExprS{bin("*", v("b"), lit(2))}),
+		gen("g", Let{"i", "", lit(0)}, While{bin("<", v("i"), a), []Stmt{Yield{v("i")}, Asg{"i", "+=", lit(1)}}}, ExprS{lit(100)}),
+		gen("g", Let{"f", "", clo(bin("+", v("x"), a), pInt("x"))}, Yield{callfn(v("f"), lit(1))}, Yield{callfn(v("f"), lit(2))}, ExprS{lit(0)}),
+		gen("g", Yield{a}, If{bin(">", a, lit(1)), []Stmt{Yield{lit(7)}}, []Stmt{Yield{lit(8)}}}, Print{Lit{`"in g"`}}, Yield{lit(5)}, ExprS{lit(6)}),
+		gen("g", Let{"b", "Int", a}, Do{Body: []Stmt{Yield{v("b")}, Asg{"b", "+=", lit(1)}}, HasFin: true, Finally: []Stmt{Print{Lit{`"fin"`}}}}, Yield{v("b")}, ExprS{v("b")}),
+	}
+	for i, g := range gens {
+		add(fmt.Sprintf("gen/%d/for-in", i), []*Def{g}, []Stmt{forPrint("g", 3), forPrint("g", 0)})
+	}
+	// a method that consumes a generator; a generator that consumes a generator
+	add("gen/consumer-method", []*Def{gens[0],
+		{Name: "m", Params: []Param{pInt("a")}, Ret: "Int", Body: []Stmt{Let{"s", "", lit(0)}, ForIn{"e", call("g", a), []Stmt{Asg{"s", "+=", v("e")}}}, Ret{v("s")}}}},
+		[]Stmt{Print{call("m", lit(3))}})
+	add("gen/gen-over-gen", []*Def{gens[1],
+		gen("h", ForIn{"e", call("g", a), []Stmt{Yield{bin("*", v("e"), lit(2))}}}, ExprS{lit(1)})},
+		[]Stmt{forPrint("h", 2)})
+	asyncs := []*Def{
+		asy("af", Let{"b", "", bin("+", a, lit(1))}, Ret{v("b")}),
+		asy("af", If{bin(">", a, lit(1)), []Stmt{Ret{a}}, nil}, ExprS{bin("+", a, lit(10))}),
+		asy("af", Let{"f", "", clo(bin("*", a, lit(2)))}, ExprS{callfn(v("f"))}),
+	}
+	sync := func(e Expr) Expr { return MethCall{Recv: e, Name: "await_sync"} }
+	for i, f := range asyncs {
+		add(fmt.Sprintf("async/%d/await-sync", i), []*Def{f}, []Stmt{Print{sync(call("af", lit(3)))}, Print{sync(call("af", lit(0)))}})
+		add(fmt.Sprintf("async/%d/awaited-by-async", i), []*Def{f,
+			asy("ag", Let{"b", "", Await{call("af", a)}}, ExprS{bin("*", v("b"), lit(2))})},
+			[]Stmt{Print{sync(call("ag", lit(3)))}})
+	}
+	// (two awaits inside ONE expression, `(await af(a)) + (await af(1))`, kill the process on the unchanged tree — index
+	// out of range in vm.(*Thread).readValue on a pool thread — so the two awaits are bound to locals here)
+	add("async/two-awaits", []*Def{asyncs[0],
+		asy("ag", Let{"b", "", Await{call("af", a)}}, Let{"c", "", Await{call("af", lit(1))}}, Ret{bin("+", v("b"), v("c"))})},
+		[]Stmt{Let{"r", "", sync(call("ag", lit(3)))}, Print{v("r")}})
+	nAttr := &Param{"n", "Int"}
+	ivar := v("@n")
+	mth := func(name string, kind string, body ...Stmt) *Def {
+		return &Def{Name: name, Params: []Param{pInt("a")}, Ret: "Int", Body: body, Kind: kind}
+	}
+	initd := func(body ...Stmt) *Def {
+		return &Def{Name: "init", Params: []Param{pInt("k")}, Kind: "init", Body: body}
+	}
+	ucall := func(recv Expr, name string, args ...Expr) Expr {
+		return MethCall{Recv: recv, Name: name, Args: args, User: true}
+	}
+	addc := func(name string, cs []*Class, defs []*Def, main []Stmt) {
+		out = append(out, &Prog{Name: name, Classes: cs, Defs: defs, Main: main})
+	}
+	addc("class/init-locals-method-ret", []*Class{{Name: "Foo12", Attr: nAttr,
+		Init:    initd(Let{"u", "", bin("+", v("k"), lit(1))}, Asg{"@n", "=", v("u")}),
+		Methods: []*Def{mth("incr", "", Let{"b", "", bin("+", ivar, a)}, Ret{v("b")})}}}, nil,
+		[]Stmt{Let{"o", "", call("Foo12", lit(1))}, Print{ucall(v("o"), "incr", lit(2))}, Print{MethCall{Recv: v("o"), Name: "n"}}})
+	addc("class/method-closure-and-self-call", []*Class{{Name: "Foo12", Attr: nAttr,
+		Init: initd(Asg{"@n", "=", v("k")}),
+		Methods: []*Def{
+			mth("twice", "", Let{"f", "", clo(bin("*", ivar, lit(2)))}, ExprS{bin("+", callfn(v("f")), a)}),
+			mth("both", "", If{bin(">", a, lit(1)), []Stmt{Ret{ucall(Lit{"self"}, "twice", a)}}, nil}, ExprS{lit(0)}),
+		}}}, nil,
+		[]Stmt{Let{"o", "", call("Foo12", lit(4))}, Print{ucall(v("o"), "twice", lit(1))}, Print{ucall(v("o"), "both", lit(2))}, Print{ucall(v("o"), "both", lit(0))}})
+	addc("class/method-closure-over-parameter", []*Class{{Name: "Foo12", Attr: nAttr,
+		Init: initd(Asg{"@n", "=", v("k")}),
+		Methods: []*Def{
+			mth("twice", "", Let{"f", "", clo(bin("*", a, lit(2)))}, Let{"b", "", callfn(v("f"))}, Ret{bin("+", v("b"), ivar)}),
+		}}}, nil,
+		[]Stmt{Let{"o", "", call("Foo12", lit(4))}, Print{ucall(v("o"), "twice", lit(1))}})
+	addc("class/generator-and-async-methods", []*Class{{Name: "Foo12", Attr: nAttr,
+		Init: initd(Asg{"@n", "=", v("k")}),
+		Methods: []*Def{
+			mth("each", "gen", Yield{ivar}, Let{"b", "", bin("+", ivar, a)}, Yield{v("b")}, ExprS{lit(9)}),
+			mth("later", "async", Let{"b", "", bin("+", ivar, a)}, Ret{v("b")}),
+		}}}, nil,
+		[]Stmt{Let{"o", "", call("Foo12", lit(4))}, ForIn{"e", ucall(v("o"), "each", lit(1)), []Stmt{Print{v("e")}}}, Print{sync(ucall(v("o"), "later", lit(2)))}})
+	addc("module/method", []*Class{{Module: true, Name: "Mod12",
+		Methods: []*Def{mth("k", "", Let{"b", "", bin("*", a, lit(3))}, If{bin(">", v("b"), lit(5)), []Stmt{Ret{v("b")}}, nil}, ExprS{lit(1)})}}},
+		[]*Def{{Name: "m", Params: []Param{pInt("a")}, Ret: "Int", Body: []Stmt{Ret{bin("+", ucall(v("Mod12"), "k", a), lit(1))}}}},
+		[]Stmt{Print{call("m", lit(3))}, Print{call("m", lit(1))}})
 	// F: top level only
 	add("top/locals", nil, []Stmt{Let{"a", "", lit(1)}, Let{"b", "", bin("+", v("a"), lit(2))}, Print{bin("*", v("b"), v("a"))}})
 	add("top/while", nil, []Stmt{Let{"i", "", lit(0)}, Let{"s", "", lit(0)},
@@ -209,6 +298,17 @@ func bases(thorough bool) []*Prog {
 	add("top/logical", nil, []Stmt{Let{"a", "", lit(3)}, Let{"c", "", bin("&&", bin(">", v("a"), lit(1)), bin("<", v("a"), lit(9)))}, If{v("c"), []Stmt{Print{Lit{`"in"`}}}, []Stmt{Print{Lit{`"out"`}}}}})
 	if !thorough {
 		return out
+	}
+	// thorough: every generator and async shape also as a callee below a plain caller method
+	for i, g := range gens {
+		add(fmt.Sprintf("gen/%d/consumer-method", i), []*Def{g,
+			{Name: "m", Params: []Param{pInt("a")}, Ret: "Int", Body: []Stmt{Let{"s", "", lit(0)}, ForIn{"e", call("g", a), []Stmt{Asg{"s", "+=", v("e")}}}, Ret{v("s")}}}},
+			[]Stmt{Print{call("m", lit(3))}, Print{call("m", lit(0))}})
+	}
+	for i, f := range asyncs {
+		add(fmt.Sprintf("async/%d/sync-caller-method", i), []*Def{f,
+			{Name: "m", Params: []Param{pInt("a")}, Ret: "Int", Body: []Stmt{Let{"b", "", sync(call("af", a))}, Ret{bin("+", v("b"), lit(1))}}}},
+			[]Stmt{Print{call("m", lit(3))}, Print{call("m", lit(0))}})
 	}
 	// thorough: every caller over every leaf that takes and returns Int without throwing
 	for _, c := range cs {
